@@ -1128,11 +1128,17 @@ func opValueStateVarJournal(ctx context.Context, pc *uint64, interpreter *EVMInt
 }
 
 func loadDataFromMem(memPtr *uint256.Int, mem *Memory) ([]byte, uint64, error) {
-	offset := int64(memPtr.Uint64())
-	dataLen := new(uint256.Int).SetBytes(mem.GetCopy(offset, 32))
-	if !memPtr.IsUint64() {
+	// The journal instructions do not expand memory, so both the length word and the
+	// data it announces must lie inside the memory that already exists.
+	memLen := uint64(mem.Len())
+	if !memPtr.IsUint64() || memPtr.Uint64() > memLen || memLen-memPtr.Uint64() < 32 {
+		return nil, 0, errors.New("mem data out of bounds")
+	}
+	offset := memPtr.Uint64()
+	dataLen := new(uint256.Int).SetBytes(mem.GetCopy(int64(offset), 32))
+	if !dataLen.IsUint64() || dataLen.Uint64() > memLen-offset-32 {
 		return nil, 0, errors.New("mem data too long")
 	}
 
-	return mem.GetCopy(offset+32, int64(dataLen.Uint64())), dataLen.Uint64(), nil
+	return mem.GetCopy(int64(offset+32), int64(dataLen.Uint64())), dataLen.Uint64(), nil
 }
